@@ -963,7 +963,7 @@ package scipipe
 //@   ensures def: "param_sink_in" in p.inParamPorts && res == p.inParamPorts["param_sink_in"]
 //@ func (*Sink).From(p, outPort)
 //@   props C16
-//@   requires maps: p.inPorts["sink_in"].RemotePorts != nil && outPort.RemotePorts != nil
+//@   requires maps: p.inPorts["sink_in"].RemotePorts != nil && outPort.RemotePorts != nil && outPort.RemotePorts != p.inPorts
 //@   modifies map[string]*OutPort, outPort.RemotePorts[*], InPort.ready, outPort.ready
 //@   ensures connected: outPort.ready && len(outPort.RemotePorts) > 0
 //@   ensures to-sink: outPort.RemotePorts[procName(p.inPorts["sink_in"].process) + "." + p.inPorts["sink_in"].name] == p.inPorts["sink_in"]
